@@ -762,6 +762,8 @@ class MindsDBParser(Parser):
         nullable = True
         if hasattr(p, 'NOT'):
             nullable = False
+        if not isinstance(p.table_column, TableColumn):
+            raise ParsingException("NULL / NOT NULL can't follow a PRIMARY KEY (...) clause")
         p.table_column.nullable = nullable
         return p.table_column
 
